@@ -1,5 +1,6 @@
 import Swat4.Base.Bytes
 import Swat4.Model.Styles
+import Swat4.Model.Slug
 /-!
 # Model of the REST address validation and status routing
 
@@ -14,7 +15,14 @@ Mirrors, function by function:
 * the gin binding of `model.NewServer` (`required,ipv4` / `required,gte=1025,lte=65535`) over an
   already decoded JSON body (`Body`);
 * `api.AddServer` ∘ `addserver.Execute` and `api.ViewServer` ∘ `getserver.Execute` as functions of
-  the request and of the state of the addressed server.
+  the request and of the state of the addressed server;
+* the stored record (`server.Server` with `details.Info`, `details.Player`, `details.Objective`, as far
+  as the REST layer reads it) and the 200 bodies made from it: `model.Server`, `model.ServerPlayer`,
+  `model.ServerObjective`, `model.ServerDetail` member by member (`internal/rest/model/server.go`),
+  `NewServerFromDomain`, `NewServerPlayerFromDomain`, `NewServerObjectiveFromDomain`,
+  `NewServerDetailFromDomain`, the `String()` methods of `PlayerTeam`, `PlayerCoopStatus`,
+  `ObjectiveStatus`, and what `encoding/json` writes for each struct (member names in field order);
+* `api.ListServers` ∘ `listservers.Execute` over the records the registry holds.
 -/
 namespace Swat4.Rest
 open Swat4
@@ -158,10 +166,315 @@ def andThenPublic : AddrRes → AddrRes
   | .ok a => ofExcept (newPublicAddr a)
   | r => r
 
+/-! ## the stored record (`internal/core/entities/{server,details}`)
+
+Strings are sequences of Unicode scalar values (`List Char`): every stored string went through
+`json.Marshal` in the repository, which writes valid UTF-8.  Go's `int` is 64 bit; the model's
+`Int` is unbounded and the stored values are whatever the record holds. -/
+
+/-- `details.Info` (`info.go:9-34`), field by field in declaration order -/
+structure Info where
+  hostname : List Char := []
+  hostPort : Int := 0
+  gameVariant : List Char := []
+  gameVersion : List Char := []
+  gameType : List Char := []
+  numPlayers : Int := 0
+  maxPlayers : Int := 0
+  mapName : List Char := []
+  password : Bool := false
+  statsEnabled : Bool := false
+  round : Int := 0
+  numRounds : Int := 0
+  timeLeft : Int := 0
+  timeSpecial : Int := 0
+  swatScore : Int := 0
+  suspectsScore : Int := 0
+  swatWon : Int := 0
+  suspectsWon : Int := 0
+  bombsDefused : Int := 0
+  bombsTotal : Int := 0
+  tocReports : List Char := []
+  weaponsSecured : List Char := []
+  version : List Char := []
+  deriving DecidableEq, Repr
+
+/-- `details.Player` (`player.go:52-75`); `team` / `coopStatus` are the `int` values of
+`PlayerTeam` / `PlayerCoopStatus`, whatever the record holds -/
+structure Player where
+  name : List Char := []
+  score : Int := 0
+  ping : Int := 0
+  team : Int := 0
+  vip : Bool := false
+  coopStatus : Int := 0
+  kills : Int := 0
+  teamKills : Int := 0
+  deaths : Int := 0
+  arrests : Int := 0
+  arrested : Int := 0
+  vipEscapes : Int := 0
+  vipEscapes2 : Int := 0
+  vipArrests : Int := 0
+  vipRescues : Int := 0
+  vipKillsValid : Int := 0
+  vipKillsInvalid : Int := 0
+  bombsDefused : Int := 0
+  bombsDetonated : Bool := false
+  caseEscapes : Int := 0
+  caseKills : Int := 0
+  caseSecured : Bool := false
+  deriving DecidableEq, Repr
+
+/-- `details.Objective` (`objective.go:27-30`) -/
+structure Objective where
+  name : List Char := []
+  status : Int := 0
+  deriving DecidableEq, Repr
+
+/-- `server.Server` as far as the REST layer reads it: `Addr`, `Info`, `Details.Players`,
+`Details.Objectives`.  `Details.Info` is stored too (`detailsInfo`) but no function of
+`internal/rest/model` reads it — the bodies are made from `Info` (`server.go:47`) -/
+structure Stored where
+  addr : Addr
+  info : Info := {}
+  detailsInfo : Info := {}
+  players : List Player := []
+  objectives : List Objective := []
+  deriving DecidableEq, Repr
+
+/-! ## `fmt` and `String()` renderings -/
+
+/-- `%d` of a Go `int` -/
+def decimal (n : Int) : List Char :=
+  if n < 0 then '-' :: Nat.toDigits 10 n.natAbs else Nat.toDigits 10 n.toNat
+
+/-- `Addr.GetDottedIP()`: `fmt.Sprintf("%d.%d.%d.%d", …)` -/
+def dottedIP (ip : IP4) : List Char :=
+  Nat.toDigits 10 ip.a.toNat ++ '.' :: Nat.toDigits 10 ip.b.toNat ++ '.' :: Nat.toDigits 10 ip.c.toNat ++
+    '.' :: Nat.toDigits 10 ip.d.toNat
+
+/-- `Addr.String()`: `fmt.Sprintf("%s:%d", a.GetDottedIP(), a.Port)` -/
+def addrString (a : Addr) : List Char := dottedIP a.ip ++ ':' :: decimal a.port
+
+/-- `PlayerTeam.String()` (`player.go:39-47`): `TeamSwat` 0 and `TeamSwatRed` 2 are `swat`,
+`TeamSuspects` 1 is `suspects`, anything else `fmt.Sprintf("%d", pt)` -/
+def teamString (t : Int) : List Char :=
+  if t = 0 ∨ t = 2 then "swat".toList
+  else if t = 1 then "suspects".toList
+  else decimal t
+
+/-- `PlayerCoopStatus.String()` (`player.go:17-31`) -/
+def coopStatusString (c : Int) : List Char :=
+  if c = 0 then "unknown".toList
+  else if c = 1 then "Ready".toList
+  else if c = 2 then "Healthy".toList
+  else if c = 3 then "Injured".toList
+  else if c = 4 then "Incapacitated".toList
+  else decimal c
+
+/-- `ObjectiveStatus.String()` (`objective.go:15-25`) -/
+def objectiveStatusString (s : Int) : List Char :=
+  if s = 0 then "In Progress".toList
+  else if s = 1 then "Completed".toList
+  else if s = 2 then "Failed".toList
+  else decimal s
+
+/-- `boolToInt` (`server.go:176-183`) -/
+def boolToInt (v : Bool) : Nat := if v then 1 else 0
+
+/-! ## the response structs (`internal/rest/model/server.go`) -/
+
+/-- `model.Server` (`server.go:16-44`), member by member.  The two `slug.Make` members are `none`
+when the source string is outside the modelled subset of `slug.Make` (`Slug.make`) -/
+structure ServerJson where
+  address : List Char
+  ip : List Char
+  port : Int
+  hostname : List Char
+  hostnamePlain : List Char
+  hostnameHTML : List Char
+  passworded : Bool
+  gameName : List Char
+  gameVer : List Char
+  gameType : List Char
+  gameTypeSlug : Option (List Char)
+  mapName : List Char
+  mapNameSlug : Option (List Char)
+  playerNum : Int
+  playerMax : Int
+  roundNum : Int
+  roundMax : Int
+  timeLeft : Int
+  timeSpecial : Int
+  swatScore : Int
+  suspectsScore : Int
+  swatWon : Int
+  suspectsWon : Int
+  bombsDefused : Int
+  bombsTotal : Int
+  tocReports : List Char
+  weaponsSecured : List Char
+  deriving DecidableEq, Repr
+
+/-- `model.ServerPlayer` (`server.go:81-104`) -/
+structure PlayerJson where
+  name : List Char
+  ping : Int
+  score : Int
+  team : List Char
+  vip : Bool
+  coopStatus : List Char
+  coopStatusSlug : Option (List Char)
+  kills : Int
+  teamKills : Int
+  deaths : Int
+  arrests : Int
+  arrested : Int
+  vipEscapes : Int
+  vipArrests : Int
+  vipRescues : Int
+  vipKillsValid : Int
+  vipKillsInvalid : Int
+  bombsDefused : Int
+  bombsDetonated : Nat   -- uint8
+  caseEscapes : Int
+  caseKills : Int
+  caseSecured : Nat      -- uint8
+  deriving DecidableEq, Repr
+
+/-- `model.ServerObjective` (`server.go:134-138`) -/
+structure ObjectiveJson where
+  name : List Char
+  status : List Char
+  statusSlug : Option (List Char)
+  deriving DecidableEq, Repr
+
+/-- `model.ServerDetail` (`server.go:149-153`); an empty list stands for Go's `nil` slice (the
+constructor below never makes an empty non-nil one), which `encoding/json` writes as `null` -/
+structure ServerDetailJson where
+  info : ServerJson
+  players : List PlayerJson
+  objectives : List ObjectiveJson
+  deriving DecidableEq, Repr
+
+/-- `NewServerFromDomain` (`server.go:46-79`), line by line -/
+def serverJsonOf (s : Stored) : ServerJson :=
+  let hostname := s.info.hostname
+  { address := addrString s.addr
+    ip := dottedIP s.addr.ip
+    port := s.addr.port
+    hostname := hostname
+    hostnamePlain := Styles.clean hostname
+    hostnameHTML := Styles.toHTML hostname
+    passworded := s.info.password
+    gameName := s.info.gameVariant
+    gameVer := s.info.gameVersion
+    gameType := s.info.gameType
+    gameTypeSlug := Slug.make s.info.gameType
+    mapName := s.info.mapName
+    mapNameSlug := Slug.make s.info.mapName
+    playerNum := s.info.numPlayers
+    playerMax := s.info.maxPlayers
+    roundNum := s.info.round
+    roundMax := s.info.numRounds
+    timeLeft := s.info.timeLeft
+    timeSpecial := s.info.timeSpecial
+    swatScore := s.info.swatScore
+    suspectsScore := s.info.suspectsScore
+    swatWon := s.info.swatWon
+    suspectsWon := s.info.suspectsWon
+    bombsDefused := s.info.bombsDefused
+    bombsTotal := s.info.bombsTotal
+    tocReports := s.info.tocReports
+    weaponsSecured := s.info.weaponsSecured }
+
+/-- `NewServerPlayerFromDomain` (`server.go:106-132`) -/
+def playerJsonOf (p : Player) : PlayerJson :=
+  let coopStatus := coopStatusString p.coopStatus
+  { name := p.name
+    ping := p.ping
+    team := teamString p.team
+    score := p.score
+    vip := p.vip
+    coopStatus := coopStatus
+    coopStatusSlug := Slug.make coopStatus
+    kills := p.kills
+    teamKills := p.teamKills
+    deaths := p.deaths
+    arrests := p.arrests
+    arrested := p.arrested
+    vipEscapes := p.vipEscapes
+    vipArrests := p.vipArrests
+    vipRescues := p.vipRescues
+    vipKillsValid := p.vipKillsValid
+    vipKillsInvalid := p.vipKillsInvalid
+    bombsDefused := p.bombsDefused
+    bombsDetonated := boolToInt p.bombsDetonated
+    caseEscapes := p.caseEscapes
+    caseKills := p.caseKills
+    caseSecured := boolToInt p.caseSecured }
+
+/-- `NewServerObjectiveFromDomain` (`server.go:140-147`) -/
+def objectiveJsonOf (o : Objective) : ObjectiveJson :=
+  let status := objectiveStatusString o.status
+  { name := o.name, status := status, statusSlug := Slug.make status }
+
+/-- `NewServerDetailFromDomain` (`server.go:155-174`): the two loops append in stored order (`nil`
+stays `nil` when there is nothing to append), `Info` is `NewServerFromDomain(svr)` -/
+def serverDetailJsonOf (s : Stored) : ServerDetailJson :=
+  { info := serverJsonOf s
+    players := s.players.map playerJsonOf
+    objectives := s.objectives.map objectiveJsonOf }
+
+/-! ## what `encoding/json` writes: member names in field order -/
+
+/-- one scalar JSON value; `unmodelled` = a `slug.Make` result outside the modelled subset -/
+inductive JAtom where
+  | str (s : List Char)
+  | int (n : Int)
+  | bool (b : Bool)
+  | unmodelled
+  deriving DecidableEq, Repr
+
+def slugAtom : Option (List Char) → JAtom
+  | some s => .str s
+  | none => .unmodelled
+
+/-- `json.Marshal(model.Server)`: the `json` tags of `server.go:17-43` in field order -/
+def ServerJson.members (s : ServerJson) : List (String × JAtom) :=
+  [("address", .str s.address), ("ip", .str s.ip), ("port", .int s.port), ("hostname", .str s.hostname),
+   ("hostname_plain", .str s.hostnamePlain), ("hostname_html", .str s.hostnameHTML),
+   ("passworded", .bool s.passworded), ("gamename", .str s.gameName), ("gamever", .str s.gameVer),
+   ("gametype", .str s.gameType), ("gametype_slug", slugAtom s.gameTypeSlug), ("mapname", .str s.mapName),
+   ("mapname_slug", slugAtom s.mapNameSlug), ("player_num", .int s.playerNum), ("player_max", .int s.playerMax),
+   ("round_num", .int s.roundNum), ("round_max", .int s.roundMax), ("time_round", .int s.timeLeft),
+   ("time_special", .int s.timeSpecial), ("score_swat", .int s.swatScore), ("score_sus", .int s.suspectsScore),
+   ("vict_swat", .int s.swatWon), ("vict_sus", .int s.suspectsWon), ("bombs_defused", .int s.bombsDefused),
+   ("bombs_total", .int s.bombsTotal), ("coop_reports", .str s.tocReports), ("coop_weapons", .str s.weaponsSecured)]
+
+/-- `json.Marshal(model.ServerPlayer)`: the tags of `server.go:82-103` -/
+def PlayerJson.members (p : PlayerJson) : List (String × JAtom) :=
+  [("name", .str p.name), ("ping", .int p.ping), ("score", .int p.score), ("team", .str p.team), ("vip", .bool p.vip),
+   ("coop_status", .str p.coopStatus), ("coop_status_slug", slugAtom p.coopStatusSlug), ("kills", .int p.kills),
+   ("teamkills", .int p.teamKills), ("deaths", .int p.deaths), ("arrests", .int p.arrests), ("arrested", .int p.arrested),
+   ("vip_escapes", .int p.vipEscapes), ("vip_captures", .int p.vipArrests), ("vip_rescues", .int p.vipRescues),
+   ("vip_kills_valid", .int p.vipKillsValid), ("vip_kills_invalid", .int p.vipKillsInvalid),
+   ("rd_bombs_defused", .int p.bombsDefused), ("rd_crybaby", .int p.bombsDetonated), ("sg_escapes", .int p.caseEscapes),
+   ("sg_kills", .int p.caseKills), ("sg_crybaby", .int p.caseSecured)]
+
+/-- `json.Marshal(model.ServerObjective)`: the tags of `server.go:135-137` -/
+def ObjectiveJson.members (o : ObjectiveJson) : List (String × JAtom) :=
+  [("name", .str o.name), ("status", .str o.status), ("status_slug", slugAtom o.statusSlug)]
+
+/-- the tags of `model.ServerDetail` (`server.go:150-152`) -/
+def detailMemberNames : List String := ["info", "players", "objectives"]
+
 /-! ## the addressed server, responses, store effects -/
 
 /-- discovery status bits (`status.go`; checked against the generated facts in `Properties/C17`) -/
 def dsNew : Nat := 1
+def dsInfo : Nat := 4
 def dsDetails : Nat := 8
 def dsDetailsRetry : Nat := 16
 def dsPortRetry : Nat := 128
@@ -173,7 +486,7 @@ def hasBit (w bit : Nat) : Bool := w &&& bit != 0
 /-- state of the record stored under the addressed server's key -/
 inductive SrvState where
   | absent
-  | present (status : Nat) (queryPort : Int) (hostname : List Char)
+  | present (status : Nat) (queryPort : Int) (rec : Stored)
   deriving Repr
 
 /-- what a request did to registry and probe queue -/
@@ -184,18 +497,41 @@ inductive Effect where
   | discover (created : Bool) (a : Addr) (queryPort : Int) (status : Nat)
   deriving DecidableEq, Repr
 
+/-- the server data of a response body (`c.JSON(http.StatusOK, …)`) -/
+inductive RespBody where
+  /-- `model.Server`: `POST /api/servers` (`servers_add.go:48`) -/
+  | server (s : ServerJson)
+  /-- `model.ServerDetail`: `GET /api/servers/:address` (`servers_view.go:50`) -/
+  | detail (d : ServerDetailJson)
+  /-- `[]model.Server`: `GET /api/servers` (`servers_list.go:58-62`; never `nil`: `make(…, 0, n)`) -/
+  | list (l : List ServerJson)
+  deriving DecidableEq, Repr
+
 structure Resp where
   status : Nat
-  /-- `hostname_html`, `hostname_plain` of a 200 body -/
-  body : Option (List Char × List Char)
+  /-- the server data of the body; `none`: the body carries no server data (it is empty, or the
+  `{"error": …}` object of a 400) -/
+  body : Option RespBody
   effect : Effect
   deriving Repr
+
+/-- `hostname_html`, `hostname_plain` of a body with one server (top level for `model.Server`, under
+`info` for `model.ServerDetail`) -/
+def RespBody.hostnames : RespBody → Option (List Char × List Char)
+  | .server s => some (s.hostnameHTML, s.hostnamePlain)
+  | .detail d => some (d.info.hostnameHTML, d.info.hostnamePlain)
+  | .list _ => none
+
+def Resp.hostnames (r : Resp) : Option (List Char × List Char) := r.body.bind RespBody.hostnames
 
 /-- `UpdateDiscoveryStatus(s)`: clears `new`, sets `s` -/
 def updateStatus (w s : Nat) : Nat := (w &&& (511 - dsNew)) ||| s
 
-def serverBody (hostname : List Char) : Option (List Char × List Char) :=
-  some (Styles.toHTML hostname, Styles.clean hostname)
+/-- `c.JSON(http.StatusOK, model.NewServerFromDomain(svr))` -/
+def serverBody (rec : Stored) : Option RespBody := some (.server (serverJsonOf rec))
+
+/-- `c.JSON(http.StatusOK, model.NewServerDetailFromDomain(svr))` -/
+def detailBody (rec : Stored) : Option RespBody := some (.detail (serverDetailJsonOf rec))
 
 def badRequest : Resp := ⟨400, none, .none⟩
 
@@ -205,8 +541,8 @@ def addExecute (a : Addr) : SrvState → Resp
     -- createServerFromAddress: query port min(port+1, 65535), status `new`; then the default branch
     -- of maybeDiscoverServer: enqueue, mark port_retry
     ⟨202, none, .discover true a (if a.port + 1 ≤ 65535 then a.port + 1 else 65535) (updateStatus dsNew dsPortRetry)⟩
-  | .present w qp h =>
-    if hasBit w dsDetails then ⟨200, serverBody h, .none⟩
+  | .present w qp rec =>
+    if hasBit w dsDetails then ⟨200, serverBody rec, .none⟩
     else if hasBit w dsPortRetry || hasBit w dsDetailsRetry then ⟨202, none, .none⟩
     else if hasBit w dsNoPort then ⟨410, none, .none⟩
     else ⟨202, none, .discover false a qp (updateStatus w dsPortRetry)⟩
@@ -214,7 +550,7 @@ def addExecute (a : Addr) : SrvState → Resp
 /-- `getserver.Execute` + the error mapping of `api.ViewServer` -/
 def viewExecute : SrvState → Resp
   | .absent => ⟨404, none, .none⟩
-  | .present w _ h => if hasBit w dsDetails then ⟨200, serverBody h, .none⟩ else ⟨204, none, .none⟩
+  | .present w _ rec => if hasBit w dsDetails then ⟨200, detailBody rec, .none⟩ else ⟨204, none, .none⟩
 
 /-! ## request binding -/
 
@@ -275,5 +611,111 @@ def viewServerIP (ip : IP4) (port : Int) (st : SrvState) : Resp :=
   match publicAddr ip port with
   | .ok _ => viewExecute st
   | .error _ => badRequest
+
+/-! ## `GET /api/servers` (`servers_list.go`, `listservers.go`)
+
+The query string is taken as already split by `url.ParseQuery`: per parameter, absent or its first
+value (`gin`'s `setByForm` uses `vs[0]`).  String parameters are code points (the filters compare
+them with stored strings, which are valid UTF-8); the three flags are the raw bytes `strconv.ParseBool`
+sees. -/
+
+/-- `strconv.ParseBool` -/
+def parseBool (s : Bytes) : Option Bool :=
+  if s = [49] ∨ s = [116] ∨ s = [84] ∨ s = [84, 82, 85, 69] ∨ s = [116, 114, 117, 101] ∨ s = [84, 114, 117, 101] then some true
+  else if s = [48] ∨ s = [102] ∨ s = [70] ∨ s = [70, 65, 76, 83, 69] ∨ s = [102, 97, 108, 115, 101] ∨ s = [70, 97, 108, 115, 101] then some false
+  else none
+
+/-- the query parameters of `ServerFilterForm` (`form:"gamevariant"` … `form:"noempty"`) -/
+structure ListQuery where
+  gameVariant : Option (List Char) := none
+  gameVer : Option (List Char) := none
+  gameType : Option (List Char) := none
+  hidePassworded : Option Bytes := none
+  hideFull : Option Bytes := none
+  hideEmpty : Option Bytes := none
+  deriving DecidableEq, Repr
+
+/-- `ServerFilterForm` after `ShouldBindQuery` -/
+structure ListForm where
+  gameVariant : List Char := []
+  gameVer : List Char := []
+  gameType : List Char := []
+  hidePassworded : Bool := false
+  hideFull : Bool := false
+  hideEmpty : Bool := false
+  deriving DecidableEq, Repr
+
+/-- `setBoolField`: an absent parameter leaves the field `false`, an empty value is `"false"`, any
+other goes through `strconv.ParseBool`; `none` = binding error -/
+def bindBool : Option Bytes → Option Bool
+  | none => some false
+  | some v => if v.isEmpty then some false else parseBool v
+
+/-- `c.ShouldBindQuery(&form)`; `none` = error (⇒ 400) -/
+def bindListQuery (q : ListQuery) : Option ListForm :=
+  match bindBool q.hidePassworded, bindBool q.hideFull, bindBool q.hideEmpty with
+  | some p, some f, some e =>
+    some ⟨q.gameVariant.getD [], q.gameVer.getD [], q.gameType.getD [], p, f, e⟩
+  | _, _, _ => none
+
+/-- the filters `prepareQuery` can build (`servers_list.go:73-106`) -/
+inductive RFilter where
+  | gameVariantEq (v : List Char)   -- filter.New("gamevariant", "=", form.GameVariant)
+  | gameVerEq (v : List Char)       -- filter.New("gamever", "=", form.GameVer)
+  | gameTypeEq (v : List Char)      -- filter.New("gametype", "=", form.GameType)
+  | notPassworded                   -- filter.New("password", "!=", 1)
+  | notFull                         -- filter.New("numplayers", "!=", filter.NewFieldValue("maxplayers"))
+  | notEmpty                        -- filter.New("numplayers", ">", 0)
+  deriving DecidableEq, Repr
+
+/-- `prepareQuery`: the filters in the order they are appended (all field names are query fields and
+all operators known, so `filter.New` never fails) -/
+def prepareQuery (f : ListForm) : List RFilter :=
+  (if f.gameVariant ≠ [] then [.gameVariantEq f.gameVariant] else []) ++
+  (if f.gameVer ≠ [] then [.gameVerEq f.gameVer] else []) ++
+  (if f.gameType ≠ [] then [.gameTypeEq f.gameType] else []) ++
+  (if f.hidePassworded then [.notPassworded] else []) ++
+  (if f.hideFull then [.notFull] else []) ++
+  (if f.hideEmpty then [.notEmpty] else [])
+
+/-- `Filter.Match(&info)` for these six: string fields compare with `==`, the `bool` field
+`Password` is compared as `0`/`1` (`compareToInt`), the field value `maxplayers` evaluates to an `int` -/
+def RFilter.matches (i : Info) : RFilter → Bool
+  | .gameVariantEq v => i.gameVariant = v
+  | .gameVerEq v => i.gameVersion = v
+  | .gameTypeEq v => i.gameType = v
+  | .notPassworded => (if i.password then (1 : Int) else 0) ≠ 1
+  | .notFull => i.numPlayers ≠ i.maxPlayers
+  | .notEmpty => i.numPlayers > 0
+
+/-- `query.Match`: every filter matches (`query.Blank`, no filters, matches everything) -/
+def queryMatch (fs : List RFilter) (i : Info) : Bool := fs.all (RFilter.matches i)
+
+/-- a record the registry holds, with what the listing's selection reads -/
+structure Listed where
+  status : Nat
+  /-- `RefreshedAt` in Unix nanoseconds; `none` = the zero time (the record is in no refresh index) -/
+  refreshedAt : Option Int
+  server : Stored
+  deriving Repr
+
+/-- `serverRepo.Filter(ActiveAfter(now - recentness).WithStatus(ds.Info))`: refreshed at or after
+`now - liveness` (the range start is inclusive) and the status word has the `info` bit -/
+def Listed.selected (now liveness : Int) (l : Listed) : Bool :=
+  hasBit l.status dsInfo && (match l.refreshedAt with | some t => now - liveness ≤ t | none => false)
+
+/-- `listservers.Execute` + the loop of `api.ListServers`: the selected records that match the
+query, each through `NewServerFromDomain`.  The order is the registry's (`recs`); the Go code's is
+the iteration order of a Go map (`slice.Intersection`), i.e. unspecified — the answer is this list
+up to a permutation -/
+def listExecute (now liveness : Int) (f : ListForm) (recs : List Listed) : Resp :=
+  ⟨200, some (.list (((recs.filter (Listed.selected now liveness)).filter
+      (fun l => queryMatch (prepareQuery f) l.server.info)).map (fun l => serverJsonOf l.server))), .none⟩
+
+/-- `api.ListServers`: a binding error is `c.Status(http.StatusBadRequest)` (no body) -/
+def listServers (now liveness : Int) (q : ListQuery) (recs : List Listed) : Resp :=
+  match bindListQuery q with
+  | some f => listExecute now liveness f recs
+  | none => ⟨400, none, .none⟩
 
 end Swat4.Rest
